@@ -591,7 +591,7 @@ class OpGen:
             op['load_size'] = r.choice((1, 4, 4, 8, 100))
         if any(off == 0x40 for off, h in b.overlays) and not m.eltorito and r.random() < 0.7:
             op['load_size'] = 4       # what isohybrid requires of the initial entry
-        if r.random() < 0.3 and b.length >= 64 and not b.bit:
+        if r.random() < 0.3 and b.length >= 9 and not b.bit:
             op['bit'] = True
         if m.eltorito:
             op['efi'] = r.random() < 0.5
@@ -674,6 +674,9 @@ class OpGen:
         return {'op': 'dup_pvd'}
 
     def g_restart(self):
+        # 'reuse': close() and open the written image with the *same* PyCdlib object (documented as allowed)
+        if self.ra.random() < 0.4:
+            return {'op': 'restart', 'reuse': True}
         return {'op': 'restart'}
 
     def g_re_add(self):
